@@ -127,6 +127,16 @@ def write(path, text, encoding='utf-8'):
     return path
 
 
+def preexisting(ctx, path, rng, p=0.3):
+    """In some cases the destination of a writer exists already and is longer
+    than what will be written (an earlier run): it has to be replaced."""
+    if rng.random() < p:
+        with io.open(path, 'w', encoding='utf-8') as f:
+            f.write(u'(ALT (ES zeug))\n#BOS 9999\n' * rng.randint(50, 4000))
+        ctx.stratum('destination file existed before')
+    return path
+
+
 def read(path, encoding='utf-8'):
     with io.open(path, encoding=encoding, newline='') as f:
         return f.read()
